@@ -1,6 +1,8 @@
 import GoaktVerif.Driver.Util
 import GoaktVerif.Model.C42
+import GoaktVerif.Driver.C42c
 import GoaktVerif.Spec.C42
+import GoaktVerif.Spec.C42c
 
 /-!
 Line protocol for C42/C43.  Case: `<window> <deliveryConfirmation 0|1> op op …` with ops
@@ -38,12 +40,12 @@ def hsNum : HS → Nat
 def digestP (p : Producer) : String :=
   let unc := ",".intercalate (p.unconfirmed.map fun u => s!"{u.id}:{u.seq}:{u.payload}")
   let st := match p.storedMessage with | some m => showPU m | none => "-"
-  s!"P\{cur={p.currentSeq} conf={p.confirmedSeq} pers={p.persistedConfirmedSeq} unc=[{unc}] reg={b2n p.registered} n={p.nonce} dem={p.demandUpTo} span={p.windowSpan} hs={hsNum p.handshake} tok={p.token} pid={p.pendingId} pseq={p.pendingSeq} ppl={p.pendingPayload} st={st} lt={p.lastToken} lid={p.lastId} f={b2n p.failed}}"
+  s!"P\{cur={p.currentSeq} conf={p.confirmedSeq} pers={p.persistedConfirmedSeq} unc=[{unc}] reg={b2n p.registered} n={p.nonce} dem={p.demandUpTo} span={p.windowSpan} hs={hsNum p.handshake} tok={p.token} pid={p.pendingId} pseq={p.pendingSeq} ppl={p.pendingPayload} st={st} pch=0 lt={p.lastToken} lid={p.lastId} f={b2n p.failed}}"
 
 def digestC (c : Consumer) : String :=
   let buf := ",".intercalate (c.buffer.map fun b => s!"{b.id}:{b.seq}:{b.payload}")
   let inf := match c.inFlight with | some d => showD d | none => "-"
-  s!"C\{w={c.window} hp={b2n c.hasProducer} s={c.session} n={c.nonce} exp={c.expectedSeq} conf={c.confirmedSeq} upto={c.requestUpToSeq} buf=[{buf}] inf={inf} saw={b2n c.sawValidTraffic} gap={b2n c.lastGap.isSome} f={b2n c.failed}}"
+  s!"C\{w={c.window} hp={b2n c.hasProducer} s={c.session} n={c.nonce} exp={c.expectedSeq} conf={c.confirmedSeq} upto={c.requestUpToSeq} buf=[{buf}] inf={inf} rl=0 saw={b2n c.sawValidTraffic} gap={b2n c.lastGap.isSome} f={b2n c.failed}}"
 
 def group (tag : String) (l : List String) : String :=
   if l.isEmpty then "" else tag ++ ":" ++ String.join l ++ " "
@@ -89,12 +91,49 @@ def runTrace (w : World) : List Step → List String
     let (w', o) := w.step s
     traceOf w' o :: runTrace w' ss
 
+/-- optional chunk configuration tokens right after the two fixed fields: `m<maxChunkBytes>` and `L<a,b,c>`
+    (encoded frame lengths of successive jobs, cycled) -/
+def chunkCfg (ops : List String) : Option (Nat × List Nat) × List String :=
+  match ops with
+  | m :: l :: rest =>
+    if m.startsWith "m" && l.startsWith "L" then
+      match (m.drop 1).toString.toNat?, commaNats? (l.drop 1).toString with
+      | some mx, some ls => (some (mx, ls), rest)
+      | _, _ => (none, ops)
+    else (none, ops)
+  | _ => (none, ops)
+
+/-- chunk-mode cases may also forge messages: fw<seq> / ff<seq> -/
+def parseOpC (s : String) : Option GoaktVerif.Driver.C42c.Op :=
+  if s.startsWith "fw" then ((s.drop 2).toString.toNat?).map .forgeWhole
+  else if s.startsWith "ff" then ((s.drop 2).toString.toNat?).map .forgeFirst
+  else (parseOp s).map .step
+
 def model (line : String) : String :=
-  match parseCase line with
-  | none => "bad-case"
-  | some (w0, steps) =>
-    let init := "init " ++ group "cp" (w0.netCP.map showC) ++ digestP w0.p ++ " " ++ digestC w0.c
-    ";".intercalate (init :: runTrace w0 steps)
+  match words line with
+  | w :: dc :: ops0 =>
+    let (cfg, ops) := chunkCfg ops0
+    match cfg, w.toNat? with
+    | some (mx, ls), some wn =>
+      if wn < 1 || wn > maxWindow then "bad-case" else
+      match ops.mapM parseOpC with
+      | some steps => GoaktVerif.Driver.C42c.run wn (dc == "1") mx ls steps
+      | none => "bad-case"
+    | _, _ =>
+    match w.toNat?, ops.mapM parseOp with
+    | some wn, some steps =>
+      if wn < 1 || wn > maxWindow then "bad-case" else
+      match cfg with
+      | some _ => "bad-case"
+      | none =>
+        -- unchunked case: the proven model and the chunk-aware model must print the same trace
+        let w0 := World.init wn 1 (dc == "1")
+        let init := "init " ++ group "cp" (w0.netCP.map showC) ++ digestP w0.p ++ " " ++ digestC w0.c
+        let a := ";".intercalate (init :: runTrace w0 steps)
+        let b := GoaktVerif.Driver.C42c.run wn (dc == "1") 0 [] (steps.map .step)
+        if a == b then a else "MODELS-DISAGREE " ++ a
+    | _, _ => "bad-case"
+  | _ => "bad-case"
 
 /-! ### judge: rebuild the observations from the harness trace -/
 
@@ -128,12 +167,15 @@ def obsOfSegment (seg : String) : Option (List Obs × List Nat) := do
   let cp ← grp "cp"
   let cu ← grp "cu"
   let o1 := pu.filterMap fun (n, a) => match n, a with | "T", [_, _, i, q] => some (Obs.stored i q) | _, _ => none
-  let o2 := pc.filterMap fun (n, a) => match n, a with | "S", [_, _, q, _] => some (Obs.sent q) | _, _ => none
+  let o2 := pc.filterMap fun (n, a) => match n, a with
+    | "S", [_, _, q, _] => some (Obs.sent q)
+    | "SC", [_, _, q, _, _, _] => some (Obs.sent q)
+    | _, _ => none
   let o3 := cp.filterMap fun (n, a) => match n, a with | "Q", [_, _, _, u, _] => some (Obs.requested u) | _, _ => none
   let o4 := cu.filterMap fun (n, a) => match n, a with | "D", [_, i, q, pl] => some (Obs.present i q pl) | _, _ => none
   let seqs := cu.filterMap fun (n, a) => match n, a with | "D", [_, _, q, _] => some q | _, _ => none
   -- anything the harness could not name (chunked message, foreign type) is not a whole-message trace
-  if (pc ++ cp ++ pu ++ cu).any (fun (n, _) => !["S", "A", "G", "Q", "K", "N", "T", "F", "D"].contains n) then none
+  if (pc ++ cp ++ pu ++ cu).any (fun (n, _) => !["S", "SC", "A", "G", "Q", "K", "N", "T", "F", "D"].contains n) then none
   let cs ←
     if toks.any (·.startsWith "C{") then do
       let w ← (kv toks "w").bind String.toNat?
@@ -159,7 +201,9 @@ def collect : List String → List String → List Nat → List Obs → Option (
 def judge (line : String) : String :=
   let (c, o) := splitTab line
   match words c with
-  | _ :: _ :: ops =>
+  | _ :: _ :: ops0 =>
+    let chunked := (chunkCfg ops0).1.isSome
+    let ops := (chunkCfg ops0).2
     match o.splitOn ";" with
     | init :: segs =>
       if !init.startsWith "init " then "bad no init segment: " ++ init else
@@ -169,6 +213,13 @@ def judge (line : String) : String :=
         match collect ops segs [] o0 with
         | none => "bad trace does not match the script (segments/ops) or is unparsable"
         | some obs =>
+          if chunked then
+            let m := Spec.C42c.Mon.run {} obs
+            if m.ok then "ok"
+            else "bad" ++ (if m.okOrder then "" else " order: presentations do not follow production order / re-presented after confirmation")
+                   ++ (if m.okDemand then "" else " demand: a SequencedMessage beyond the highest requested sequence")
+                   ++ (if m.okWindow then "" else " window: buffer or granted demand exceeds the flow-control window")
+          else
           let m := (Mon.run {} obs)
           if m.ok then "ok"
           else "bad" ++ (if m.okOrder then "" else " order: presentations are not 1,2,3.. in production order / re-presented after confirmation")
